@@ -390,6 +390,10 @@ class Hist:
             self._new_actor(a, ret, op, pre)
             a.ref = pre
         if kind == "restart" and raised is None:
+            # only durable state survives a restart: reaction objects removed earlier belonged to the discarded model (their metabolites
+            # and genes are still owned by it) and are gone with it
+            for key in [k_ for k_ in self.removed if k_[0] == ai]:
+                self.removed.pop(key)
             a.ref = project_ref(pre, op["fmt"], self.quarantine)
             if pre.direction == "min" and a.ref.direction == "max":
                 self.stats["quarantined:dict_direction_dropped"] += 1
